@@ -161,8 +161,9 @@ func bundleOf(v any) []byte {
 
 // checkBundles: every CRD with a conversion webhook and every webhook of
 // every webhook configuration carries a CA bundle that validates the current
-// serving certificate (tls.crt of the webhook TLS secret) for the service's
-// in-cluster name; webhook configurations point at the configured service.
+// serving certificate (tls.crt of the webhook TLS secret; the names it covers
+// are judged where it is issued); webhook configurations point at the
+// configured service.
 func checkBundles(r *explore.Run, post *snap, cfg initCfg) {
 	serving := post.secretData(serverSecret)["tls.crt"]
 	leaf, err := parseCerts(serving)
@@ -177,7 +178,7 @@ func checkBundles(r *explore.Run, post *snap, cfg initCfg) {
 		if err != nil {
 			r.Failf("bundle/"+kind+"/stale", "%s carries a CA bundle that is not the current one (does not parse: %v)", where, err)
 		}
-		if _, err := leaf[0].Verify(x509.VerifyOptions{Roots: p, DNSName: webhookService + "." + namespace + ".svc", KeyUsages: []x509.ExtKeyUsage{x509.ExtKeyUsageServerAuth}}); err != nil {
+		if _, err := leaf[0].Verify(x509.VerifyOptions{Roots: p, KeyUsages: []x509.ExtKeyUsage{x509.ExtKeyUsageServerAuth}}); err != nil {
 			r.Failf("bundle/"+kind+"/stale", "%s carries a CA bundle that does not validate the current serving certificate: %v", where, err)
 		}
 	}
